@@ -1,9 +1,12 @@
 package main
 
+import "go/types"
+
 // Environment models beyond the spike's (time, timers, quiescence, ...).
 
 func (e *Engine) setupModels() {
 	e.setupWS()
+	e.setupDial()
 	e.setupFmt()
 	e.setupJSON()
 	e.setupCtx()
@@ -137,5 +140,65 @@ func (e *Engine) setupWS() {
 	// rt.WSClosed(conn) reports whether the connection was closed locally
 	x[rtPkg+".WSClosed"] = func(e *Engine, fr *frame, a []value) value {
 		return BoolT(e.wsOf(a[0].(iface).v).closed)
+	}
+}
+
+// Dial model: records the URL string and header handed to gorilla's dialer and
+// returns one end of a fresh M-ws pair (or an error when the harness asked for
+// a failing dial). Which host gorilla would resolve from the string is the
+// harness's business (it reads the string independently).
+type wsDial struct {
+	url    *bytesV
+	header value
+	peer   *value
+}
+
+func (e *Engine) setupDial() {
+	x := e.ext
+	dial := func(e *Engine, urlV, hdr value) value {
+		dials, _ := e.objs["wsdials"].([]*wsDial)
+		d := &wsDial{url: e.snapshot(urlV.(*bytesV)), header: hdr}
+		respT := types.NewPointer(e.namedType("net/http", "Response"))
+		connT := e.namedType(wsPkg, "Conn")
+		if fail, _ := e.objs["wsdialfail"].(bool); fail {
+			e.objs["wsdials"] = append(dials, d)
+			return tuple{(*value)(nil), zero(respT), e.newErr("websocket: bad handshake (M-ws: dial failed)")}
+		}
+		pa, pb := new(value), new(value)
+		*pa, *pb = zero(connT), zero(connT)
+		wa, wb := &wsEnd{}, &wsEnd{}
+		wa.peer, wb.peer = wb, wa
+		e.ws[pa], e.ws[pb] = wa, wb
+		d.peer = pb
+		e.objs["wsdials"] = append(dials, d)
+		return tuple{pa, zero(respT), e.errNil()}
+	}
+	x["(*"+wsPkg+".Dialer).Dial"] = func(e *Engine, fr *frame, a []value) value { return dial(e, a[1], a[2]) }
+	x["(*"+wsPkg+".Dialer).DialContext"] = func(e *Engine, fr *frame, a []value) value { return dial(e, a[2], a[3]) }
+	x[rtPkg+".WSDials"] = func(e *Engine, fr *frame, a []value) value {
+		dials, _ := e.objs["wsdials"].([]*wsDial)
+		return BV(64, uint64(len(dials)))
+	}
+	getDial := func(e *Engine, a []value) *wsDial {
+		dials, _ := e.objs["wsdials"].([]*wsDial)
+		i := int(a[0].(*Term).V)
+		if i < 0 || i >= len(dials) {
+			e.rtPanic("rt.WSDial*: index out of range")
+		}
+		return dials[i]
+	}
+	x[rtPkg+".WSDialURL"] = func(e *Engine, fr *frame, a []value) value { return getDial(e, a).url }
+	x[rtPkg+".WSDialHeader"] = func(e *Engine, fr *frame, a []value) value { return getDial(e, a).header }
+	x[rtPkg+".WSDialPeer"] = func(e *Engine, fr *frame, a []value) value {
+		d := getDial(e, a)
+		if d.peer == nil {
+			return iface{}
+		}
+		return iface{t: types.NewPointer(e.namedType(wsPkg, "Conn")), v: d.peer}
+	}
+	x[rtPkg+".WSDialFail"] = func(e *Engine, fr *frame, a []value) value {
+		t := a[0].(*Term)
+		e.objs["wsdialfail"] = e.decide(t)
+		return nil
 	}
 }
